@@ -3,6 +3,7 @@ package c15
 import (
 	"bytes"
 	"context"
+	"errors"
 	"fmt"
 	"net"
 	"sync"
@@ -43,6 +44,10 @@ type segCase struct {
 	// Interloper > 0 (level B): while the connection under test works, a second connection holds the first Interloper bytes of
 	// a valid request (incomplete frame); afterwards it sends the rest and must get exactly its own reply
 	Interloper int `json:"interloper,omitempty"`
+	// Garbage: sent before the first request, in one write: a frame that is not Modbus TCP (protocol id != 0). Once the server has
+	// answered it (the case is excluded if it does not), the requests that follow are handled as on a fresh connection: nothing of
+	// the rejected input - bytes or state - may affect them, however they are fragmented.
+	Garbage spec.Hex `json:"garbage,omitempty"`
 }
 
 // errorUnit: requests with a unit id at or above this are answered by the handler with a typed error
@@ -152,8 +157,14 @@ func runSeg(c segCase) harness.Result {
 	} else {
 		err = runAssembler(c, p, ref)
 	}
+	if err == errGarbageUnanswered {
+		return harness.Result{Labels: append(labels, "garbage-unanswered")}
+	}
 	if err != nil {
 		return harness.Result{Err: err, NonTrivial: true}
+	}
+	if len(c.Garbage) > 0 {
+		labels = append(labels, "after-rejected-garbage")
 	}
 	if p.known {
 		return harness.Result{Excluded: kfParser125, Labels: append(labels, "known:"+kfParser125)}
@@ -169,6 +180,8 @@ func describe(p plan) string {
 	return s
 }
 
+var errGarbageUnanswered = errors.New("garbage unanswered")
+
 func runAssembler(c segCase, p plan, ref []byte) (err error) {
 	h := &srv.Handler{Dev: device.New(c.DevSeed), ErrorFromUnit: errorUnit}
 	asm := &server.ModbusTCPAssembler{Handler: h}
@@ -179,6 +192,12 @@ func runAssembler(c segCase, p plan, ref []byte) (err error) {
 			err = fmt.Errorf("assembler panicked after %d stream bytes: %v (segments %s)", fed, pn, describe(p))
 		}
 	}()
+	if len(c.Garbage) > 0 {
+		g := append([]byte(nil), c.Garbage...)
+		if resp, closeConn := asm.ReceiveRead(context.Background(), g, len(g)); closeConn || len(resp) == 0 {
+			return errGarbageUnanswered
+		}
+	}
 	for i, seg := range p.segments {
 		buf := append([]byte(nil), seg...)
 		resp, closeConn := asm.ReceiveRead(context.Background(), buf, len(buf))
@@ -199,6 +218,25 @@ func runAssembler(c segCase, p plan, ref []byte) (err error) {
 	}
 	return nil
 }
+
+// offsetCollector hides the first base bytes (the reply to the garbage prelude) of a collector.
+type offsetCollector struct {
+	c    *srv.Collector
+	base int
+}
+
+func (o offsetCollector) cut(b []byte) []byte {
+	if len(b) < o.base {
+		return nil
+	}
+	return b[o.base:]
+}
+func (o offsetCollector) Bytes() []byte { return o.cut(o.c.Bytes()) }
+func (o offsetCollector) WaitLen(n int, d time.Duration) []byte {
+	return o.cut(o.c.WaitLen(o.base+n, d))
+}
+func (o offsetCollector) WaitQuiet(q, d time.Duration) []byte { return o.cut(o.c.WaitQuiet(q, d)) }
+func (o offsetCollector) Closed() (bool, error)               { return o.c.Closed() }
 
 func runServer(c segCase, p plan, ref []byte) error {
 	var finishInterloper func() error
@@ -280,7 +318,22 @@ func runServer(c segCase, p plan, ref []byte) error {
 		return fmt.Errorf("harness: dial: %v", err)
 	}
 	defer conn.Close()
-	col := srv.Collect(conn)
+	col0 := srv.Collect(conn)
+	base := 0
+	if len(c.Garbage) > 0 {
+		_ = conn.SetWriteDeadline(time.Now().Add(5 * time.Second))
+		if _, err := conn.Write(c.Garbage); err != nil {
+			return errGarbageUnanswered
+		}
+		if b := col0.WaitLen(1, time.Second); len(b) == 0 {
+			return errGarbageUnanswered
+		}
+		base = len(col0.WaitQuiet(40*time.Millisecond, time.Second))
+		if closed, _ := col0.Closed(); closed {
+			return errGarbageUnanswered
+		}
+	}
+	col := offsetCollector{col0, base}
 	fed := 0
 	reqIdx := 0
 	for i, seg := range p.segments {
@@ -414,6 +467,14 @@ func genSeg(t *rapid.T, level string) segCase {
 	}
 	if level == "B" && rapid.IntRange(0, 2).Draw(t, "with_interloper") == 0 {
 		c.Interloper = rapid.IntRange(1, 11).Draw(t, "interloper")
+	}
+	if rapid.IntRange(0, 4).Draw(t, "with_garbage") == 0 {
+		g := gen.Payload(t, "garbage", rapid.IntRange(8, 40).Draw(t, "garbage_n"))
+		if rapid.Bool().Draw(t, "garbage_like_request") {
+			g = append([]byte(nil), spec.EncodeRequest(spec.TCP, c.Requests[0])...)
+		}
+		g[2+rapid.IntRange(0, 1).Draw(t, "garbage_pidx")] = byte(rapid.IntRange(1, 255).Draw(t, "garbage_pid"))
+		c.Garbage = g
 	}
 	if level == "B" {
 		// the server reads at most 300 bytes per read: keep segments <= 300 so that one write is one read
